@@ -33,7 +33,9 @@ def mw_table(ctx, rep):
     P = _pipe(ctx)
     for hook in HOOKS:
         evs = P.ev.get("HOOK:" + hook, [])
-        if not rep.exact(R, "%s call sites" % hook, len(evs), 1):
+        # the same call site reached through two calls of its function (`if need { f(); g() }
+        # else { f() }`) is one site
+        if not rep.exact(R, "%s call sites" % hook, len({(s_.body.path, s_.bb) for _k, s_ in evs}), 1):
             continue
         k, s = evs[0]
         body = s.body
@@ -342,18 +344,23 @@ def mw5_hooks_on_every_action(ctx, rep):
     te, fe = n2_flag_edges(ctx)
     n = 0
     for hook in HOOKS:
+        by_site = {}
         for k, s in P.ev.get("HOOK:" + hook, []):
+            by_site.setdefault((s.body.path, s.bb), []).append((k, s))
+        for ks in by_site.values():
             n += 1
+            k, s = ks[0]
             forbid = list(empty_edges)
             if hook == "before_dispatch":
                 forbid += fe  # world in which the chain's notify flag is true
             # marker of "the hook phase was entered": the Iterator::next call that yields the
-            # hook's receiver (an exhausted list legitimately calls no hook)
+            # hook's receiver (an exhausted list legitimately calls no hook); all contexts in
+            # which the site's function is called count
             bp = ctx.prog.bp(s.body)
             nx = [st for st in subterms(bp.arg_term(s.bb, 0)) if st[0] == "call" and st[2] == "std::iter::Iterator::next" and st[1][0] == s.body.path]
-            marker = {k}
+            marker = {k_ for k_, _s in ks}
             if nx:
-                marker = {(k[0], s.body.path, nx[0][1][1])}
+                marker = {(k_[0], s.body.path, nx[0][1][1]) for k_, _s in ks}
             r = G.reach_corr(P.recv, avoid=marker, after=True, forbid_edges=forbid)
             rep.check(not (r & set(P.recv)), R, "hook-phase-not-bypassed:%s" % hook, s.where,
                       "with a non-empty middleware list%s every action reaches the %s hooks" % (" and a Dispatch answer" if hook == "before_dispatch" else "", hook),
